@@ -38,7 +38,7 @@ CONSTANTS S,        \* value slots (variables of the user's program)
           HookInPlace  \* FALSE: the code as it is. TRUE: deviation - context hooks appended in place
 
 None == [kind |-> "none"]
-LibHooks == {-1, -10, -11}   \* Timestamp, Caller, CallerWithSkipFrameCount(one frame further up)
+LibHooks == {-1, -10}   \* in the exhaustive model: Timestamp and Caller (two different ones are what aliasing needs; the programs replayed on the real code use five)
 VARIABLES slot,   \* slot[i]: None | [kind: "L"|"C", arr, len, fresh, used, g: ghost]
           mem,    \* backing arrays: sequence of sequences of field ids (Len = capacity, 0 = unused cell)
           hmem,   \* backing arrays of the hook slices: sequences of hook ids (Len = capacity, 0 = unused cell)
